@@ -6,7 +6,7 @@ import (
 )
 
 func gen(r *h.Rand, tier string, emit func([]string)) {
-	n := 700
+	n := 500
 	if tier == "thorough" {
 		n = 6000
 	}
